@@ -99,7 +99,11 @@ func calculateExecutionType(
 
 	switch methodT.GetType() {
 	case base.BLOCK:
-		return methodT.GetVal().(*base.T)
+		if blockResultT, ok := methodT.GetVal().(*base.T); ok {
+			return blockResultT
+		}
+
+		return base.MakeUnknown()
 
 	case base.UNION:
 		var newVariants []base.T
@@ -168,10 +172,12 @@ func calculateExecutionType(
 
 	case base.BLOCK_RESULT_ARRAY:
 		blockT := m.parser.GetLastEvaluatedT()
-		blockResultT := blockT.GetVal().(*base.T)
-
 		arrayT := base.MakeAnyArray()
-		arrayT.AppendArrayVariant(*blockResultT)
+
+		// without a block the last evaluated value is not a block result
+		if blockResultT, ok := blockT.GetVal().(*base.T); ok {
+			arrayT.AppendArrayVariant(*blockResultT)
+		}
 
 		return arrayT
 
